@@ -47,7 +47,9 @@ def part_size(L, tier, log):
             i = len(w["fields"])
             f = Obj("qpack::field::HeaderField")
             nl, vl = z3.BitVec(f"name_len_{i}", 64), z3.BitVec(f"value_len_{i}", 64)
-            st.pc.append(z3.And(z3.ULE(nl, bv(1 << 32)), z3.ULE(vl, bv(1 << 32))))
+            # names and values below 16 MiB each, said as 'the 40 high bits are zero' (a comparison with a constant makes
+            # every overflow check of the running sum a hard adder query for the SAT back end; this form is propagated)
+            st.pc.append(z3.And(z3.Extract(63, 24, nl) == 0, z3.Extract(63, 24, vl) == 0))
             for idx, ln in ((0, nl), (1, vl)):
                 cow = Obj("std::borrow::Cow<'_, [u8]>")
                 sl = Obj("[u8]")
@@ -116,7 +118,7 @@ def part_size(L, tier, log):
     q = 0
     for s, ret in outs:
         if ret == ("panic",):
-            continue  # arithmetic overflow of the size is excluded by the length bound above (2^32 per string)
+            continue  # arithmetic overflow of the size is excluded by the length bound above (2^24 per string)
         if ret.discr.as_long() != 0:
             continue
         got = E.get_field(ret, ("Ok", 0))
@@ -124,7 +126,10 @@ def part_size(L, tier, log):
         for nl, vl in s.world["fields"]:
             want = want + nl + vl + bv(32)
         q += 1
-        m = ex.model(s, got != want)
+        # bit-vector addition is associative and commutative: z3's simplifier normalises both sums; only if the two normal
+        # forms differ is the (for a SAT solver hard: two different adder trees) equivalence query asked
+        diff = z3.simplify(got - want, som=True)
+        m = None if (z3.is_bv_value(diff) and diff.as_long() == 0) else ex.model(s, got != want)
         if m is not None:
             viols.append({"key": "c10.send.size_is_not_rfc_size", "what": "encode_stateless returns a size other than the sum of name + value + 32 over the fields",
                           "model": {"fields": [(m.eval(a, True).as_long(), m.eval(b_, True).as_long()) for a, b_ in s.world["fields"]],
